@@ -269,7 +269,14 @@ Definition expect_Channel_RequeueMessage : list string :=
 
 (* TOUCH: pop, new deadline capped at delivery + max-msg-timeout, push back into BOTH map and queue *)
 Definition expect_Channel_TouchMessage : list string :=
-  [ "call c.popInFlightMessage"
+  [ "call c.exitMutex.RLock"
+  ; "defer c.exitMutex.RUnlock"
+  ; "call c.Exiting"
+  ; "if c.Exiting() {"
+  ; "call errors.New"
+  ; "return"
+  ; "}"
+  ; "call c.popInFlightMessage"
   ; "if err != nil {"
   ; "return"
   ; "}"
